@@ -96,6 +96,25 @@ where go : List String → String
           showOutcome (verifySTH (prims v.bit) v.key ⟨ver, UInt64.ofNat sz, UInt64.ofNat ts, root, v.ds⟩)
       | _, _, _, _ => "bad-op"
     | _ => "bad-op"
+  | "vwit" :: k :: n :: rest =>
+    -- vwit <kind> <n> {<hash> <alg> <R> <S> <prim> <sighex>}*n : WitnessVerifier.VerifySignature on n witness signatures
+    match parseNat? n with
+    | some n =>
+      let rec sigs (fuel : Nat) (ts : List String) (acc : List VArgs) : Option (List VArgs) :=
+        match fuel, ts with
+        | 0, [] => some acc.reverse
+        | f+1, h :: a :: r :: s :: pb :: sg :: more =>
+          match parseV (k :: "0" :: h :: a :: r :: s :: pb :: sg :: []) with
+          | some (v, []) => sigs f more (v :: acc)
+          | _ => none
+        | _, _ => none
+      match sigs n rest [] with
+      | some vs =>
+        match vs.findSome? (fun v => if derCase v.ds.sigAlg then rsCheck v.ds.sig v.R v.S else none) with
+        | some m => m
+        | none => showOutcome (witnessVerify (vs.map fun v => verifySignature (prims v.bit) v.key [] v.ds))
+      | none => "bad-op"
+    | none => "bad-op"
   | ["sj", k, nl, r, s, pb, sg, pok] =>
     match parseNat? nl, optInt r, optInt s, parseBool? pb, fromHex sg, parseBool? pok with
     | some nl, some r, some s, some pb, some sg, some pok =>
